@@ -171,7 +171,7 @@ S_LIST = Stream(
 
 # ------------------------------------------------------------------ stream kernel: Kernel objects
 
-KERNELS = ['UniformKernel', 'TriangularKernel', 'GaussianKernel', 'ExponentialKernel', 'EpanechnikovKernel', 'DiracKernel']
+KERNELS = ['UniformKernel', 'TriangularKernel', 'GaussianKernel', 'ExponentialKernel', 'EpanechnikovKernel', 'DiracKernel', 'CubicKernel', 'SphericKernel']      # (the last two have their width for support: width 1 is the smallest window)
 
 
 def gen_kernel(rng, n, tier):
@@ -180,7 +180,7 @@ def gen_kernel(rng, n, tier):
         name = rng.choice(KERNELS)
         size = rng.choice([1, 1.5, 2, 2.5, 3, 4, 5, 6])
         boundary = rng.random() < 0.5
-        supp = {'UniformKernel': 2 * size, 'TriangularKernel': 1.5 * size, 'GaussianKernel': 3 * size, 'ExponentialKernel': 3 * size, 'EpanechnikovKernel': 1.5 * size, 'DiracKernel': 1}[name]
+        supp = {'UniformKernel': 2 * size, 'TriangularKernel': 1.5 * size, 'GaussianKernel': 3 * size, 'ExponentialKernel': 3 * size, 'EpanechnikovKernel': 1.5 * size, 'DiracKernel': 1, 'CubicKernel': size, 'SphericKernel': size}[name]
         N = 3 if name == 'DiracKernel' else 2 * int(supp) + 1
         m = rng.randint(N, N + 6)
         xs = [(None if rng.random() < 0.1 else float(rng.choice([0, 1, 2, -3, 7, 0.5, 2.25, 10]))) for _ in range(m)]
